@@ -6,6 +6,9 @@ Hendrix: the implementation truncates the demand support; its total mass is **no
 -/
 import MdpaxV.Model.Probs
 import MdpaxV.Model.Shipped
+import MdpaxV.Props.C19
+import Mathlib.Data.List.Perm.Basic
+import Mathlib.Algebra.BigOperators.Group.List.Lemmas
 import Mathlib.Algebra.BigOperators.Group.List.Basic
 import Mathlib.Algebra.BigOperators.Intervals
 import Mathlib.Data.Nat.Choose.Sum
@@ -168,8 +171,226 @@ theorem mirjaliliProb_off_simplex (demandP : Nat → α) (cat : Nat → List α)
     mirjaliliProb demandP cat order d k = 0 := by
   simp [mirjaliliProb, h]
 
+
+/-! ### Mirjalili: the event space lists exactly the multinomial support, so every row sums to one -/
+
+
+theorem splits_length (m n : Nat) : ∀ ks ∈ splits m n, ks.length = m := by
+  induction m generalizing n with
+  | zero => cases n <;> simp [splits]
+  | succ m ih =>
+    intro ks hks
+    simp only [splits, List.mem_flatMap, List.mem_range, List.mem_map] at hks
+    obtain ⟨i, _, rest, hrest, rfl⟩ := hks
+    simp [ih (n - i) rest hrest]
+
+theorem splits_mem (m n : Nat) (ks : List Nat) : ks ∈ splits m n ↔ ks.length = m ∧ ks.sum = n := by
+  constructor
+  · intro h; exact ⟨splits_length m n ks h, splits_sum m n ks h⟩
+  · rintro ⟨hl, hs⟩
+    induction m generalizing n ks with
+    | zero =>
+      have : ks = [] := List.length_eq_zero_iff.mp hl
+      subst this; simp at hs; subst hs; simp [splits]
+    | succ m ih =>
+      cases ks with
+      | nil => simp at hl
+      | cons k ks =>
+        simp only [List.length_cons, Nat.add_right_cancel_iff] at hl
+        simp only [List.sum_cons] at hs
+        simp only [splits, List.mem_flatMap, List.mem_range, List.mem_map]
+        exact ⟨k, by omega, ks, ih (n - k) ks hl (by omega), rfl⟩
+
+theorem splits_nodup (m n : Nat) : (splits m n).Nodup := by
+  induction m generalizing n with
+  | zero => cases n <;> simp [splits]
+  | succ m ih =>
+    simp only [splits]
+    rw [List.nodup_flatMap]
+    constructor
+    · intro i _
+      exact (ih (n - i)).map (fun a b h => by simpa using h)
+    · refine List.Pairwise.imp_of_mem ?_ (List.nodup_range (n := n + 1))
+      intro a b _ _ hab
+      simp only [Function.onFun, List.disjoint_left, List.mem_map]
+      rintro x ⟨r, _, rfl⟩ ⟨r', _, h⟩
+      simp at h; exact hab h.1.symm
+
+
+theorem dimsOf_replicate (m : Nat) (Q : Nat) :
+    dimsOf (List.replicate m 0) (List.replicate m (Q : Int)) = List.replicate m (Q + 1) := by
+  induction m with
+  | zero => simp [dimsOf]
+  | succ m ih => simp only [List.replicate_succ, dimsOf, ih]; congr 1
+
+theorem inBox_replicate (m Q : Nat) (k : List Int) :
+    C19.InBox (List.replicate m 0) (List.replicate m (Q + 1)) k ↔ k.length = m ∧ ∀ x ∈ k, 0 ≤ x ∧ x ≤ (Q : Int) := by
+  induction m generalizing k with
+  | zero => cases k <;> simp [C19.InBox]
+  | succ m ih =>
+    cases k with
+    | nil => simp [C19.InBox, List.replicate_succ]
+    | cons x xs =>
+      simp only [List.replicate_succ, C19.InBox, ih xs, List.length_cons, List.mem_cons, forall_eq_or_imp]
+      constructor
+      · rintro ⟨h1, h2, h3, h4⟩; exact ⟨by omega, ⟨h1, by push_cast at h2; omega⟩, h4⟩
+      · rintro ⟨h1, ⟨h2, h3⟩, h4⟩; exact ⟨h2, by push_cast; omega, by omega, h4⟩
+
+theorem sumI_eq_sum (k : List Int) : sumI k = k.sum := (List.sum_eq_foldl).symm
+
+theorem sum_toNat (k : List Int) (h : ∀ x ∈ k, 0 ≤ x) : ((k.map Int.toNat).sum : Int) = k.sum := by
+  induction k with
+  | nil => simp
+  | cons x xs ih =>
+    simp only [List.map_cons, List.sum_cons, Nat.cast_add]
+    rw [ih (fun y hy => h y (by simp [hy])), Int.toNat_of_nonneg (h x (by simp))]
+
+theorem map_toNat_ofNat (ks : List Nat) : (ks.map (fun (n : Nat) => (n : Int))).map Int.toNat = ks := by
+  induction ks with
+  | nil => rfl
+  | cons k ks ih => simp [ih]
+
+theorem le_sum_of_mem (ks : List Nat) (x : Nat) (h : x ∈ ks) : x ≤ ks.sum := List.le_sum_of_mem h
+
+/-- sum over a list of a function that vanishes outside `p` = sum over the filtered list -/
+theorem sum_map_ite {β : Type} (l : List β) (p : β → Prop) [DecidablePred p] (f : β → α) :
+    (l.map fun x => if p x then f x else 0).sum = ((l.filter (fun x => decide (p x))).map f).sum := by
+  induction l with
+  | nil => simp
+  | cons a l ih =>
+    simp only [List.map_cons, List.sum_cons, List.filter_cons, ih]
+    by_cases h : p a <;> simp [h]
+
+
+/-- the received-order combinations of the Mirjalili event space (all vectors of `m` counts in `0..Q` with total ≤ Q) -/
+def combos (m Q : Nat) : List (List Int) :=
+  (rangeSpace (List.replicate m 0) (List.replicate m (Q : Int))).filter fun k => decide (sumI k ≤ (Q : Int))
+
+theorem mem_combos (m Q : Nat) (k : List Int) :
+    k ∈ combos m Q ↔ k.length = m ∧ (∀ x ∈ k, 0 ≤ x ∧ x ≤ (Q : Int)) ∧ k.sum ≤ (Q : Int) := by
+  unfold combos rangeSpace
+  rw [List.mem_filter, dimsOf_replicate, C19.space_mem _ _ (by simp), inBox_replicate, sumI_eq_sum]
+  simp [and_assoc]
+
+/-- **the splits of an order that the event space lists are exactly the multinomial support**: for `order ≤ Q`, the
+    combinations whose total is `order` are, up to order, the vectors of `splits m order` -/
+theorem combos_perm_splits (m Q order : Nat) (ho : order ≤ Q) :
+    (((combos m Q).map (·.map Int.toNat)).filter fun ks => decide (ks.sum = order)).Perm (splits m order) := by
+  rw [List.perm_ext_iff_of_nodup]
+  · intro ks
+    simp only [List.mem_filter, List.mem_map, decide_eq_true_eq, splits_mem]
+    constructor
+    · rintro ⟨⟨k, hk, rfl⟩, hs⟩
+      obtain ⟨hl, _, _⟩ := (mem_combos m Q k).mp hk
+      exact ⟨by simp [hl], hs⟩
+    · rintro ⟨hl, hs⟩
+      refine ⟨⟨ks.map (fun (n : Nat) => (n : Int)), ?_, map_toNat_ofNat ks⟩, hs⟩
+      rw [mem_combos]
+      refine ⟨by simp [hl], ?_, ?_⟩
+      · intro x hx
+        simp only [List.mem_map] at hx
+        obtain ⟨n, hn, rfl⟩ := hx
+        have := List.le_sum_of_mem hn
+        constructor
+        · exact Int.natCast_nonneg n
+        · exact_mod_cast (by omega : n ≤ Q)
+      · have : ((ks.map (fun (n : Nat) => (n : Int))).sum : Int) = (ks.sum : Nat) := by
+          induction ks with
+          | nil => simp
+          | cons a as ih => simp
+        rw [this]; exact_mod_cast (by omega : ks.sum ≤ Q)
+  · apply List.Nodup.filter
+    apply List.Nodup.map_on
+    · intro a ha b hb hab
+      obtain ⟨_, hna, _⟩ := (mem_combos m Q a).mp ha
+      obtain ⟨_, hnb, _⟩ := (mem_combos m Q b).mp hb
+      have := congrArg (List.map (fun (n : Nat) => (n : Int))) hab
+      rw [List.map_map, List.map_map] at this
+      have ea : a.map ((fun (n : Nat) => (n : Int)) ∘ Int.toNat) = a := by
+        conv_rhs => rw [← List.map_id a]
+        apply List.map_congr_left; intro x hx
+        simp only [Function.comp, id]; exact Int.toNat_of_nonneg (hna x hx).1
+      have eb : b.map ((fun (n : Nat) => (n : Int)) ∘ Int.toNat) = b := by
+        conv_rhs => rw [← List.map_id b]
+        apply List.map_congr_left; intro x hx
+        simp only [Function.comp, id]; exact Int.toNat_of_nonneg (hnb x hx).1
+      rw [ea, eb] at this; exact this
+    · unfold combos rangeSpace
+      exact (C19.space_nodup _ _).filter _
+  · exact splits_nodup m order
+
+
+theorem row_factorises {κ : Type} (cs : List κ) (demands : List Nat) (demandP : Nat → α) (recv : κ → α) :
+    ((cs.flatMap fun k => demands.map fun d => demandP d * recv k)).sum =
+      (demands.map demandP).sum * (cs.map recv).sum := by
+  induction cs with
+  | nil => simp
+  | cons k ks ih =>
+    simp only [List.flatMap_cons, List.sum_append, ih, List.map_cons, List.sum_cons]
+    have : ∀ (dl : List Nat), (dl.map fun d => demandP d * recv k).sum = (dl.map demandP).sum * recv k := by
+      intro dl
+      induction dl with
+      | nil => simp
+      | cons d ds ihd => simp only [List.map_cons, List.sum_cons, ihd]; ring
+    rw [this]; ring
+
+theorem powProd_nonneg (ps : List α) (hc : ∀ p ∈ ps, 0 ≤ p) (ks : List Nat) : 0 ≤ powProd ps ks := by
+  induction ps generalizing ks with
+  | nil => cases ks <;> simp [powProd]
+  | cons p ps ih =>
+    cases ks with
+    | nil => simp [powProd]
+    | cons k ks =>
+      simp only [powProd]
+      exact mul_nonneg (pow_nonneg (hc p (by simp)) k) (ih (fun q hq => hc q (by simp [hq])) ks)
+
+/-- the row, event by event: combination-major, demand-minor, each entry `P(d) · recv(k)` -/
+theorem mirjaliliRow_eq {β : Type} (c : MirjaliliCfg β) (demandP : Nat → α) (cat : Nat → List α) (order : Nat) :
+    mirjaliliRow c demandP cat order =
+      (combos c.m c.Q).flatMap fun k => (List.range (c.maxDemand + 1)).map fun d =>
+        demandP d * (if (k.map Int.toNat).sum = order then multinomialPmf (cat order) (k.map Int.toNat) else 0) := by
+  simp only [mirjaliliRow, mirjaliliEvents, combos, List.map_flatMap, List.map_map]
+  rfl
+
+/-- **Mirjalili: every (weekday, order) row is a probability distribution** — for every useful life `m`, order cap `Q`,
+    demand cap, every order `≤ Q`, every demand table summing to one over `0..maxDemand` (the censored negative binomial)
+    and every category table of length `m` summing to one (the softmax of the logits): the probabilities of all events sum to one -/
+theorem mirjalili_dist {β : Type} (c : MirjaliliCfg β) (demandP : Nat → α) (cat : Nat → List α) (order : Nat)
+    (ho : order ≤ c.Q) (hd : ((List.range (c.maxDemand + 1)).map demandP).sum = 1)
+    (hcl : (cat order).length = c.m) (hcs : (cat order).sum = 1) :
+    (mirjaliliRow c demandP cat order).sum = 1 := by
+  rw [mirjaliliRow_eq]
+  have h1 := row_factorises (combos c.m c.Q) (List.range (c.maxDemand + 1)) demandP
+    (fun k => if (k.map Int.toNat).sum = order then multinomialPmf (cat order) (k.map Int.toNat) else 0)
+  rw [h1, hd, one_mul]
+  have h2 : ((combos c.m c.Q).map fun k => if (k.map Int.toNat).sum = order then multinomialPmf (cat order) (k.map Int.toNat) else 0)
+      = (((combos c.m c.Q).map (·.map Int.toNat)).map fun ks => if ks.sum = order then multinomialPmf (cat order) ks else 0) := by
+    rw [List.map_map]; rfl
+  rw [h2]
+  have h3 := sum_map_ite ((combos c.m c.Q).map (·.map Int.toNat)) (fun ks => ks.sum = order) (multinomialPmf (cat order))
+  rw [h3, ((combos_perm_splits c.m c.Q order ho).map _).sum_eq, ← hcl]
+  exact multinomial_total (cat order) hcs order
+
+/-- … and every entry is non-negative when the tables are -/
+theorem mirjalili_nonneg {β : Type} (c : MirjaliliCfg β) (demandP : Nat → α) (cat : Nat → List α) (order : Nat)
+    (hd : ∀ d, 0 ≤ demandP d) (hc : ∀ p ∈ cat order, 0 ≤ p) :
+    ∀ x ∈ mirjaliliRow c demandP cat order, 0 ≤ x := by
+  intro x hx
+  simp only [mirjaliliRow, List.mem_map] at hx
+  obtain ⟨ev, _, rfl⟩ := hx
+  unfold mirjaliliProb
+  apply mul_nonneg (hd _)
+  split
+  · unfold multinomialPmf
+    apply mul_nonneg (Nat.cast_nonneg _)
+    exact powProd_nonneg _ hc _
+  · exact le_refl 0
+
 /-! non-vacuity -/
 example : splits 2 2 = [[0, 2], [1, 1], [2, 0]] := by decide
 example : censored [(1/4 : Rat), 1/4, 1/4] = [1/4, 1/4, 1/2] := by decide +kernel
+/-- the hypotheses of `mirjalili_dist` are met by a concrete instance (m = 2, Q = 1, demand cap 1) and the row is the expected one -/
+example : mirjaliliRow (⟨1, 2, 1, 0, 0, 0, 0, 0⟩ : MirjaliliCfg Rat) (fun d => [(1/2 : Rat), 1/2].getD d 0) (fun _ => [1/2, 1/2]) 1
+    = [0, 0, 1/4, 1/4, 1/4, 1/4] := by decide +kernel
 
 end MdpaxV.C13
